@@ -28,7 +28,9 @@ LEVEL_NOTE = ('Trusted: the reduction rule (a committed parse resets results; se
               'copy.deepcopy as a faithful branch of an object (asserted on every state).')
 RULE = (
     "state = canonical snapshot of the live object (all public result attributes, all settings, config text, per-tract snapshots, "
-    "relative creation order of tracts); transition = one real method call; BFS with a seen-set per seed object. Non-trivial = every "
+    "relative creation order of tracts) paired with the private bookkeeping attributes of the object and its tracts (the latter only "
+    "prevents merging of states with different futures; oracles look at the observable snapshot alone); transition = one real "
+    "method call; BFS with a seen-set. Non-trivial = every "
     "transition whose operation is enabled on the state (all are)."
 )
 ASSUMPTIONS = [
@@ -65,6 +67,23 @@ def snap_desc(d):
 
 def snap(o):
     return snap_desc(o) if isinstance(o, _p.PLSSDesc) else snap_tract(o)
+
+
+def hidden(o):
+    """Everything in the instance dictionaries that the observable snapshot does not show (private bookkeeping
+    attributes of the object and of its tracts).  Used only to keep the explorer from *merging* two states whose
+    observable snapshots agree but whose futures may differ; it is never part of an oracle."""
+    def h(x):
+        return tuple(sorted((k, repr(v)) for k, v in vars(x).items()
+                            if k.startswith('_') and not k.endswith('__uid') and not k.endswith('__trs')
+                            and not k.endswith('__config')))
+    if isinstance(o, _p.PLSSDesc):
+        return (h(o), tuple(h(t) for t in o.tracts))
+    return h(o)
+
+
+def state_key(o, observable):
+    return (observable, hidden(o))
 
 
 # ------------------------------------------------------------------ operations
@@ -215,7 +234,7 @@ def check_transition(acc, n, hist, name, before, obj0):
         acc.violation('exception', f"C14:exception:{n}:{name}:{type(ex).__name__}", case, got=f"{type(ex).__name__}: {ex}")
         return None
     after = snap(o)
-    acc.case(key, jdump(after))
+    acc.case(key, jdump(after) + '|' + repr(hidden(o)))
     acc.transitions += 1
     if kind == 'nc':
         if after != before:
@@ -277,8 +296,9 @@ def run_unit(unit, tier):
     if r is None:
         return acc.result()
     o1, s1 = r
-    seen = {s0: (), s1: (unit['first'],)}
-    frontier = [(o1, (unit['first'],), s1)] if s1 != s0 else []
+    k0, k1 = state_key(root, s0), state_key(o1, s1)
+    seen = {k0: (), k1: (unit['first'],)}
+    frontier = [(o1, (unit['first'],), s1)] if k1 != k0 else []
     acc.states = len(seen)
     ops = ops_for(n)
     for level in range(1, depth):
@@ -289,8 +309,9 @@ def run_unit(unit, tier):
                 if r is None:
                     continue
                 o, after = r
-                if after not in seen:
-                    seen[after] = hist + (name,)
+                k = state_key(o, after)
+                if k not in seen:
+                    seen[k] = hist + (name,)
                     nxt.append((o, hist + (name,), after))
                     acc.states += 1
         frontier = nxt
@@ -299,6 +320,8 @@ def run_unit(unit, tier):
             break
     if len(seen) > 1 and s1 != s0:
         acc.guard('more_than_one_state')
+    if any(k[1] != k0[1] for k in seen):
+        acc.guard('hidden_state_distinguished')
     return acc.result()
 
 
